@@ -210,6 +210,66 @@ fn query_sets(rec: &mut Rec, expr: &str, sched: &CronSchedule, sets: &Sets, rng:
     n
 }
 
+/// Second observation route (the one the property's anchors name): the set of minutes the iterator
+/// yields over a window, from one schedule object under a fixed clock, compared with the model's
+/// enumeration of the denoted set over the same window.
+fn window_iteration(rec: &mut Rec, expr: &str, sched: &CronSchedule, sets: &Sets, rng: &mut Rng) {
+    let a = rng.range_i64(1990, 2090);
+    let start_day = match rng.below(4) {
+        0 => cal::days_from_civil(a, 2, 1) + rng.below(28) as i64,
+        1 => cal::days_from_civil(a, 12, 20) + rng.below(14) as i64,
+        _ => cal::days_from_civil(a, 1, 1) + rng.below(365) as i64,
+    };
+    if !sets.satisfiable_from(start_day, HORIZON) {
+        return;
+    }
+    let start = start_day * 1440 + rng.below(1440) as i64;
+    let n = 24;
+    let mut expected = vec![];
+    let mut t = start;
+    for _ in 0..n {
+        match sets.next_after(t, HORIZON) {
+            Some(x) => {
+                expected.push(x);
+                t = x;
+            }
+            None => break,
+        }
+    }
+    if expected.len() < n {
+        return;
+    }
+    rec.eval();
+    rec.api("CronSchedule::next (window iteration)");
+    rec.bin("sets/window-iterated");
+    let r = trap(|| {
+        astrolabe::verif::pin_now(Some(mk(start as i128 * MIN_NS)));
+        let mut s = sched.clone();
+        let got: Vec<Option<i128>> = (0..n).map(|_| s.next().map(|d| read(&d))).collect();
+        astrolabe::verif::pin_now(None);
+        got
+    });
+    let wit = |obs: Value| json!({"expression": expr, "clock_fixed_at": show(start as i128 * MIN_NS), "model_yields": expected.iter().take(8).map(|x| show(*x as i128 * MIN_NS)).collect::<Vec<_>>(), "observed": obs});
+    match r {
+        Err(p) => rec.violation(format!("C16|window|next|panic|{},{}", p.class, p.site()), || wit(p.to_json())),
+        Ok(got) => {
+            for (k, (g, e)) in got.iter().zip(expected.iter()).enumerate() {
+                if *g != Some(*e as i128 * MIN_NS) {
+                    let kind = match g {
+                        Some(x) if *x > *e as i128 * MIN_NS => "member-minute-not-yielded",
+                        Some(_) => "non-member-minute-yielded",
+                        None => "iterator-ended",
+                    };
+                    let dom_shape = field_shape(expr, 2);
+                    let dow_shape = field_shape(expr, 4);
+                    rec.violation(format!("C16|window|{}|dom:{},dow:{}", kind, dom_shape, dow_shape), || wit(json!({"position": k, "yielded": g.map(show), "model": show(*e as i128 * MIN_NS)})));
+                    break;
+                }
+            }
+        }
+    }
+}
+
 fn judge_member(rec: &mut Rec, expr: &str, sched: &CronSchedule, sets: &Sets, t: i64, probe: Option<(usize, u32)>) {
     rec.eval();
     rec.api("CronSchedule::next (membership query)");
@@ -247,6 +307,7 @@ fn judge_expression(rec: &mut Rec, expr: &str, rng: &mut Rng, origin: &'static s
                 if n > 0 {
                     rec.bin("sets/queried");
                 }
+                window_iteration(rec, expr, &s, sets, rng);
             }
         }
         (Spec::Accept(_), Ok(Err(e))) => {
@@ -328,7 +389,7 @@ pub fn run(ctx: &Ctx) -> PropResult {
     }
     let total = *offsets.last().unwrap();
     let mut wls = vec![];
-    wls.push(Workload::cases("grammar_generated_expressions", ctx.n(6_000, 300_000), |rec, _, rng| {
+    wls.push(Workload::cases("grammar_generated_expressions", ctx.count(6_000, 300_000), |rec, _, rng| {
         let e = gen_expression(rng);
         judge_expression(rec, &e, rng, "grammar", true, 1);
     }));
@@ -366,6 +427,18 @@ pub fn run(ctx: &Ctx) -> PropResult {
         // observe the denoted sets of a sample of the edits that are still accepted
         judge_expression(rec, &e, rng, "single-edit", idx % 5 == 0, 6);
     }));
+    wls.push(Workload::cases("window_iteration_day_lists", ctx.count(2_000, 100_000), |rec, idx, rng| {
+        // day-of-month lists / steps / ranges with an unrestricted weekday: the shapes whose denoted set is
+        // only visible when the iterator walks across short months
+        const DOMS: [&str; 12] = ["1,15,30", "1,31", "*/5", "*/10", "*/3", "29-31", "2,30", "1,29,31", "31", "30", "*/7", "1-2,30-31"];
+        let dom = DOMS[(idx % DOMS.len() as u64) as usize];
+        let month = ["*", "*", "1-6", "feb,mar", "*/2"][rng.below(5) as usize];
+        let expr = format!("{} {} {} {} *", [0, 30, 59][rng.below(3) as usize], [0, 12, 23][rng.below(3) as usize], dom, month);
+        if let (Spec::Accept(sets), Ok(Ok(s))) = (cron_spec::parse(&expr), trap(|| CronSchedule::parse(&expr))) {
+            rec.nontrivial(hash_str(&expr) ^ mix64(idx));
+            window_iteration(rec, &expr, &s, &sets, rng);
+        }
+    }));
     let out = run_workloads(ctx, wls);
     let mut meta = PropMeta::default();
     meta.exhaustive = false;
@@ -373,7 +446,7 @@ pub fn run(ctx: &Ctx) -> PropResult {
         "accept side: expressions generated from the documented grammar (per field a list of 1–4 items from *, */n with n up to the field size, a, a-b; month/weekday names in random case; 7 and ranges ending in 7 in the weekday field; extra/odd whitespace) and, per field, every value, every range start/end, every step and every name; reject side: ALL single-character edits (delete / replace / insert over {{0-9 * , - / + space a-z é}}) of {} base expressions. Verdicts: Ok ⇔ the reference grammar accepts, Err(InvalidFormat) otherwise, never a panic; shapes the documentation does not settle (leading zeros, a-b/n, steps above the field size, ? L W #) are skipped. For accepted expressions the denoted sets are read back behaviourally — clock pinned at t−1 min, fresh clone, next()==t ⇔ t is a member — with one query per value of each field (other fields held at members; day queries on days where the other day field cannot satisfy the OR) plus random minutes. Every case non-trivial; distinct by hash of the expression.",
         bases.len()
     );
-    meta.required_bins = vec!["parse/accept-accept", "parse/reject-reject", "parse/unspecified-shape-skipped", "sets/queried", "member/expected-yes", "member/expected-no"];
+    meta.required_bins = vec!["parse/accept-accept", "parse/reject-reject", "parse/unspecified-shape-skipped", "sets/queried", "sets/window-iterated", "member/expected-yes", "member/expected-no"];
     meta.assumptions = vec!["the clock seen by CronSchedule::next is pinned through the cfg(astrolabe_verif) hook (thread-local)".into()];
     Ok((meta, out))
 }
